@@ -581,6 +581,34 @@ def d8_name_exact(db, rep):
                   "variables whose names differ (in case, in a suffix ...) are taken for one, and an error-free parse builds other operands than written" % how, line=r.line)
 
 
+def const_slot_shared_by_size(db, rep, rule):
+    """A constant slot may be shared only between requests of the SAME size: the slot's size decides how the constant is
+    serialised (4 bytes, sign-extended on reading) and, in the generated C, declared.  The early return of an existing slot in
+    orc_program_add_constant_str must lie under a must-fact `vars[..].size == size`; sharing across widths lets a 64-bit
+    opcode read a constant stored as 4 bytes - the bytecode round trip changes bits 63..32 of 0xff00ff00 (shared by C13/C04)."""
+    f = db.func("orc_program_add_constant_str", "orcprogram")
+    rep.saw(f)
+    fc = Facts(f)
+    rets = [r for r in f.walk() if r.k == "ReturnStmt" and r.c and r.c[0] is not None and strip_casts(r.c[0]).v is None
+            and any(y.k == "DeclRefExpr" and y.get("dk") == "local" for y in r.c[0].walk())
+            and any(a.k in ("ForStmt", "WhileStmt") for a in r.ancestors())]
+    if not rets:
+        raise AnalysisBroken("orc_program_add_constant_str: return of a shared slot not found")
+    for r in rets:
+        ok = False
+        for c_ in fc.conds(r):
+            if c_[0] == "switch" or not c_[1]:
+                continue
+            e = strip_casts(c_[0])
+            if e.k == "BinaryOperator" and e.op == "==" and {unparse(strip_casts(e.c[0])).split(".")[-1].split("->")[-1], unparse(strip_casts(e.c[1])).split(".")[-1].split("->")[-1]} == {"size"}:
+                ok = True
+        rep.check(ok, rule, where(f), "shared-slot-size@%s" % r.line,
+                  "an existing slot is returned only for a request of the same size",
+                  "orc_program_add_constant_str can return the slot of an equal constant of ANOTHER size (line %s): the slot's size is what the bytecode "
+                  "writer and the C back end go by, so a literal first used as a 4-byte operand and then by a 64-bit opcode is stored in 4 bytes and comes "
+                  "back sign-extended - `andq d, s, 0xff00ff00` computes with 0xffffffffff00ff00 after a round trip" % r.line, line=r.line)
+
+
 def d12_const_name_kept(db, rep, rule="D12-CONST-NAME-KEPT"):
     """D12: instructions refer to a declared constant BY NAME.  orc_program_add_constant_str shares the slot of an equal
     constant; when it returns an existing slot the name the caller asked for must not get lost: the early return of a slot
